@@ -301,7 +301,7 @@ def lblStr : Lbl → String
   | .getRp => "getRp" | .getTraits => "getTraits" | .main => "main" | .getProject => "getProject"
   | .createProject => "createProject" | .getUser => "getUser" | .createUser => "createUser"
   | .getConsumer => "getConsumer" | .getCtype => "getCtype" | .createCtype => "createCtype"
-  | .createConsumer => "createConsumer" | .getAllocs => "getAllocs" | .cleanup => "cleanup" | .other => "other"
+  | .createConsumer => "createConsumer" | .updateConsumer => "updateConsumer" | .getAllocs => "getAllocs" | .cleanup => "cleanup" | .other => "other"
 
 def respJson (r : Resp) : Json := Json.mkObj [("status", r.status), ("code", codeStr r.code)]
 
